@@ -1,7 +1,8 @@
 /-
   C05 for workflow files: a `uses:` value written as a one-line PLAIN scalar is located exactly — the range is the
-  ref (the version, or the 40-hex hash of a pinned action), in bounds, on its line.  (Quoted values deviate:
-  c05_deviation_quoted_uses, recorded finding F-C05-1.)
+  ref (the version, or the 40-hex hash of a pinned action), in bounds, on its line.  (For a QUOTED value the parser's own
+  range is the whole token; what is reported is narrowed to the ref at the reporting boundary: Props/C05Wire.lean,
+  c05_wire_covers_spec - the repair of F-C05-1.)
 -/
 import Vlsp.Props.C05
 
